@@ -5,7 +5,7 @@ from pbt import core, dagprop, oracles, specs
 
 LEVEL = 'fault_enumeration'
 RULE = ('DAGs of 2-9 nodes x generated subsets of failing nodes x failure kind {raise ValueError/KeyError/custom Exception, '
-        'Exception that cannot be pickled, sys.exit(), custom BaseException, SIGKILL, SIGTERM (process backends and simulated '
+        'Exception that cannot be pickled, sys.exit(), custom BaseException, SIGKILL, SIGTERM, os._exit(0) without reporting (process backends and simulated '
         'death under the ControlledRunner)} x strict-reader / non-reading dependents x continue_on_failure in {True, False} x '
         'backends {ControlledRunner, serial, fork, spawn} x schedules x cache pre-states. Oracle (continue_on_failure=True): '
         'run_tasks returns; returned keys/values == reference over the successful requested nodes in request order; every node '
@@ -55,7 +55,7 @@ def run_job(rec: core.Recorder, job: dict, seed: int) -> None:
     eng = job['engine']
     fail = ['raise:ValueError', 'raise:KeyError', 'raise:CustomErr', 'raise:UnpicklableErr', 'exit', 'baseexc', 'raisefrom']
     if eng != 'serial':
-        fail += ['kill9', 'kill15']
+        fail += ['kill9', 'kill15', 'exit0']
     strat = specs.dag_spec(min_nodes=2, max_nodes=5 if eng == 'spawn' else 9, backends=(eng,), fail_modes=fail, fail_rate=30,
                            noread_rate=30, continue_on_failure=(True, True, False), bust=True)
     core.run_hypothesis(rec, eng, strat, check, max_examples=job['n'], seed=seed,
